@@ -83,12 +83,22 @@ class Gen:
                 u = rng.choice(self.pool)
                 e = rng.choice([1, 1, 1, 1, 2, 3, -1, -2, 2])
                 specs.append((u, e, False))
+            if rng.random() < 0.15:
+                # the same unit twice in one signature (`m m`, `s | s`): exponents must add up
+                u, e, _ = rng.choice(specs)
+                specs.insert(rng.randrange(len(specs) + 1), (u, rng.choice([1, 1, 2, -1]), False))
+                n = len(specs)
             if n > 1 and rng.random() < 0.5:
                 k = rng.randrange(1, n)
                 specs = specs[:k] + [(u, e, True) for (u, e, _) in specs[k:]]
         parts, inv_parts, sx_u, sx_i, out = [], [], [], [], []
+        same = {}
         for u, e, inv in specs:
-            name, pre = self.spelling(u)
+            if id(u) in same and rng.random() < 0.7:
+                name, pre = same[id(u)]                 # literally the same spelling again
+            else:
+                name, pre = self.spelling(u)
+                same[id(u)] = (name, pre)
             t = name if e == 1 and rng.random() < 0.7 else "%s^%d" % (name, e)
             cp = ".".join(str(ord(c)) for c in name)
             (inv_parts if inv else parts).append(t)
